@@ -26,6 +26,7 @@ func runC08(c *Ctx) {
 	c08R2(c, m)
 	c08R3(c, m, "R3")
 	c08R4(c)
+	sentinelIdentity(c, "R6")
 	if es := c.P.LangFunc("(*Evaluator).evalStatement"); es != nil {
 		c.shared("R5", "C07/R4", "a call yields the value of the executed return statement: the return arm stores the value in the slot and raises errReturn, only callFunction reads the slot", keyHas("return-"), func(s *Ctx) { c07Return(s, es) })
 	}
@@ -296,6 +297,17 @@ func c08R3(c *Ctx, m *frameModel, rule string) {
 		}
 	}
 	c.check(depthOK, rule, "depth-is-parent-plus-one", p.InstrPos(cmp), "the tested depth is stackTop.depth + 1", "the tested value is not provably parent depth + 1")
+	// every frame with a parent gets that depth: the store is conditional on `stackTop != nil` only
+	for _, s := range storesToField(m.push, "stackFrame", "depth", false) {
+		var extra []string
+		for _, rl := range FactsOf(m.push).At(s.Block()).Rels() {
+			if sf, ok := loadedField(rl.x); ok && sf.Is("Evaluator", "stackTop") && isNilConst(rl.y) && rl.op == relNE {
+				continue
+			}
+			extra = append(extra, p.RenderShort(rl.x)+" "+rl.op.String()+" "+p.RenderShort(rl.y))
+		}
+		c.check(len(extra) == 0, rule, "depth-for-every-frame", p.InstrPos(s), "every frame pushed on top of another one is one deeper than it", "the depth of a new frame is only set under {"+strings.Join(extra, " ; ")+"}: frames of the other kind restart at depth 0, so recursion through them is never stopped by the limit (the Go stack overflows instead)")
+	}
 }
 
 func limitGlobal(p *Program, name string) *ssa.Global {
